@@ -19,6 +19,7 @@ import pickle
 import sys
 import time
 import traceback
+import concurrent.futures
 from concurrent.futures import ProcessPoolExecutor
 from typing import Any, Callable, Dict, List, Optional
 
@@ -344,8 +345,23 @@ def main(argv: Optional[List[str]] = None) -> int:
     if nshards == 1:
         results = [_run_shard(jobs[0])]
     else:
-        with ProcessPoolExecutor(max_workers=min(nshards, os.cpu_count() or 4)) as ex:
-            results = list(ex.map(_run_shard, jobs))
+        # watchdog: a shard that never returns (e.g. a non-terminating parse) makes the run inconclusive,
+        # never a violation
+        limit = float(os.environ.get("VERIF_WATCHDOG_S", "2400" if tier == "quick" else "21600"))
+        ex = ProcessPoolExecutor(max_workers=min(nshards, os.cpu_count() or 4))
+        futs = [ex.submit(_run_shard, j) for j in jobs]
+        done, pending = concurrent.futures.wait(futs, timeout=limit)
+        if pending:
+            for proc in list(getattr(ex, "_processes", {}).values()):
+                try:
+                    proc.kill()
+                except Exception:
+                    pass
+            ex.shutdown(wait=False, cancel_futures=True)
+            print(f"HARNESS-ERROR property={pid}: {len(pending)} shard(s) did not finish within {limit:.0f} s (inconclusive)")
+            return 2
+        results = [f.result() for f in futs]
+        ex.shutdown(wait=True)
 
     errors = [r["error"] for r in results if r["error"]]
     agg_classes: collections.Counter = collections.Counter()
